@@ -10,7 +10,7 @@ Executable model of the DOM edit operations that change the *structure* of a sty
 | `place`, `insertCore`, `insertRule` | `CSSStyleSheet.insertRule` / `add`, `css/cssstylesheet.py:552-887` (all branches) |
 | `deleteRule`               | `CSSStyleSheet.deleteRule`, `css/cssstylesheet.py:496-550`              |
 | `cleanLoop`                | `CSSStyleSheet._cleanNamespaces`, `css/cssstylesheet.py:104-117`        |
-| `usedUris`                 | `CSSStyleSheet._getUsedURIs`, `css/cssstylesheet.py:119-129`            |
+| `usedUris`, `usedOf`       | `CSSStyleSheet._getUsedURIs` (recursive into nested @media), `css/cssstylesheet.py:119-133` |
 | `setEncoding`              | `CSSStyleSheet._setEncoding`, `css/cssstylesheet.py:438-454`            |
 | `setText`, `parseTop`      | `CSSStyleSheet._setCssText`, `css/cssstylesheet.py:152-365` (dispatcher levels, reset, final clean) |
 | `nsDict`, `nsSet`, `nsDel` | `util._Namespaces.namespaces / __setitem__ / __delitem__ / __findrule`, `util.py:745-830` |
@@ -186,12 +186,17 @@ def nsDict (rules : List Rule) : Dict :=
 /-- `[r.namespaceURI for r in self if r.type == r.NAMESPACE_RULE]` -/
 def nsUris (rules : List Rule) : List Cps := (rules.filter (fun r => r.kind = .ns)).map (·.uri)
 
-/-- `_getUsedURIs` (`cssstylesheet.py:119-129`): style rules of the sheet and style rules directly inside its @media rules -/
-def usedUris (rules : List Rule) : List Cps :=
-  rules.flatMap fun r =>
-    if r.kind = .style then r.used
-    else if r.kind = .media then r.kids.flatMap (fun k => if k.kind = .style then k.used else [])
-    else []
+mutual
+/-- `_getUsedURIs` (`cssstylesheet.py:119-133`): the URIs used by the selectors of the style rules of the sheet and,
+recursively, of the style rules inside its @media rules at any depth (@media rules may be nested) -/
+def usedOf : Rule → List Cps
+  | ⟨_, k, _, _, _, used, _, _, kids⟩ => if k = .style then used else if k = .media then usedOfL kids else []
+def usedOfL : List Rule → List Cps
+  | [] => []
+  | r :: rs => usedOf r ++ usedOfL rs
+end
+
+def usedUris (rules : List Rule) : List Cps := usedOfL rules
 
 /-- `__findrule(prefix)` (`util.py:802-809`): index of the last @namespace rule with this prefix -/
 def findNsIdx (p : Cps) : List Rule → Option Nat
